@@ -21,6 +21,7 @@ import (
 	"os"
 	"os/exec"
 	"path/filepath"
+	"regexp"
 	"sort"
 	"strconv"
 	"strings"
@@ -31,6 +32,7 @@ import (
 
 	"github.com/fabiolb/fabio/config"
 	"github.com/fabiolb/fabio/internal/verifx"
+	"github.com/fabiolb/fabio/logger"
 	"github.com/fabiolb/fabio/route"
 	"github.com/fabiolb/fabio/transport"
 )
@@ -54,6 +56,8 @@ type c19Beh struct {
 		Status int `json:"status"`
 		Within int `json:"within"`
 	} `json:"out"`
+	Wrap string `json:"wrap,omitempty"` // handlers in front of the transport: "", "plain", "gzip", "log", "gzip+log"
+	Req  string `json:"req,omitempty"`  // "", "GET", "HEAD", "POST", "EXPECT"
 }
 
 func c19Config(c c19Cfg) *config.Config {
@@ -67,22 +71,35 @@ func c19Config(c c19Cfg) *config.Config {
 	return cfg
 }
 
-// c19NewProxy is main.newHTTPProxy reduced to what matters here.
-func c19NewProxy(cfg *config.Config, routes string) (*HTTPProxy, error) {
+// c19NewProxy is main.newHTTPProxy reduced to what matters here; wrap names the handlers main
+// would put in front of the transport (proxy.gzip.contenttype, log.access.target).
+func c19NewProxy(cfg *config.Config, routes string, wrap string) (*HTTPProxy, error) {
 	tbl, err := route.NewTable(bytes.NewBufferString(routes))
 	if err != nil {
 		return nil, err
 	}
 	globCache := route.NewGlobCache(1000)
 	pick, match := route.Picker["rnd"], route.Matcher["prefix"]
-	return &HTTPProxy{
-		Config:            cfg.Proxy,
+	pc := cfg.Proxy
+	if strings.Contains(wrap, "gzip") {
+		pc.GZIPContentTypes = regexp.MustCompile(`^(text/.*|application/json)(;.*)?$`)
+	}
+	p := &HTTPProxy{
+		Config:            pc,
 		Transport:         transport.NewTransport(nil),
 		InsecureTransport: transport.NewTransport(&tls.Config{InsecureSkipVerify: true}),
 		Lookup: func(r *http.Request) *route.Target {
 			return tbl.Lookup(r, r.Header.Get("trace"), pick, match, globCache, false)
 		},
-	}, nil
+	}
+	if strings.Contains(wrap, "log") {
+		l, err := logger.New(io.Discard, logger.CommonFormat)
+		if err != nil {
+			return nil, err
+		}
+		p.Logger = l
+	}
+	return p, nil
 }
 
 const c19Slack = 1500 * time.Millisecond
@@ -116,7 +133,8 @@ func c19BehaviourPart(t *testing.T) map[string]any {
 		t.Fatal(err)
 	}
 
-	// upstreams: answer after ?d=<ms>; give up early when the proxy has gone away
+	// upstreams: stay silent for ?d=<ms> (the request body is not touched before, so no
+	// "100 Continue" goes out either), then answer; give up early when the proxy has gone away
 	slow := http.HandlerFunc(func(w http.ResponseWriter, r *http.Request) {
 		d, _ := strconv.Atoi(r.URL.Query().Get("d"))
 		if d > 0 {
@@ -128,9 +146,11 @@ func c19BehaviourPart(t *testing.T) map[string]any {
 				return
 			}
 		}
+		io.Copy(io.Discard, r.Body)
 		w.Header().Set("X-Upstream", "c19")
+		w.Header().Set("Content-Type", "text/plain")
 		w.WriteHeader(200)
-		io.WriteString(w, "ok")
+		io.WriteString(w, strings.Repeat("ok ", 200))
 	})
 	plain := httptest.NewServer(slow)
 	defer plain.Close()
@@ -157,13 +177,13 @@ func c19BehaviourPart(t *testing.T) map[string]any {
 		transport.SetConfig(&config.Config{})
 		if c.First.Name != "zero" { // an earlier configuration, and a proxy built under it
 			transport.SetConfig(c19Config(c.First))
-			if _, err := c19NewProxy(c19Config(c.First), routes); err != nil {
+			if _, err := c19NewProxy(c19Config(c.First), routes, ""); err != nil {
 				t.Fatal(err)
 			}
 		}
 		cfg := c19Config(c.C)
 		transport.SetConfig(cfg)
-		p, err := c19NewProxy(cfg, routes)
+		p, err := c19NewProxy(cfg, routes, c.Wrap)
 		if err != nil {
 			verifx.Fail(c, map[string]any{"sub": "behaviour", "kind": c.Kind, "clause": "build"}, "cannot build the proxy: %v", err)
 			continue
@@ -171,37 +191,66 @@ func c19BehaviourPart(t *testing.T) map[string]any {
 		bs = append(bs, built{c, httptest.NewServer(p)})
 	}
 
-	// The requests of a round run in parallel.  A verdict counts only when the process was not
-	// stalled during the round (every verdict here depends on timers), and a case is reported
-	// when it failed in two such rounds.
-	type verdict struct{ clause, msg string }
-	attempt := func(b built) verdict {
+	// One measurement: what the client saw and when.
+	type seen struct {
+		status int
+		el     time.Duration
+		err    error
+	}
+	measure := func(b built) seen {
 		c := b.c
 		T := time.Duration(c.C.Rht) * time.Millisecond
-		bound := time.Duration(c.Out.Within)*time.Millisecond + c19Slack
-		cl := &http.Client{Timeout: bound + time.Duration(c.Delay)*time.Millisecond/4 + 2*time.Second, Transport: &http.Transport{DisableKeepAlives: true}}
+		cl := &http.Client{Timeout: T + c19Slack + time.Duration(c.Delay)*time.Millisecond + 2*time.Second, Transport: &http.Transport{DisableKeepAlives: true}}
+		method, body := "GET", io.Reader(nil)
+		switch c.Req {
+		case "HEAD":
+			method = "HEAD"
+		case "POST", "EXPECT":
+			method, body = "POST", strings.NewReader(strings.Repeat("x", 1024))
+		}
+		req, err := http.NewRequest(method, b.srv.URL+"/?d="+strconv.Itoa(c.Delay), body)
+		if err != nil {
+			return seen{err: err}
+		}
+		if c.Req == "EXPECT" {
+			req.Header.Set("Expect", "100-continue")
+		}
+		if strings.Contains(c.Wrap, "gzip") {
+			req.Header.Set("Accept-Encoding", "gzip")
+		}
 		t0 := time.Now()
-		resp, err := cl.Get(b.srv.URL + "/?d=" + strconv.Itoa(c.Delay))
+		resp, err := cl.Do(req)
 		el := time.Since(t0)
 		if err != nil {
-			if c.Out.Status == 504 {
-				return verdict{"not-cut-off", fmt.Sprintf("no response within %v (response-header timeout %v, upstream delay %d ms): %v", el, T, c.Delay, err)}
-			}
-			return verdict{"client-error", fmt.Sprintf("request failed after %v: %v", el, err)}
+			return seen{el: el, err: err}
 		}
 		io.Copy(io.Discard, resp.Body)
 		resp.Body.Close()
+		return seen{status: resp.StatusCode, el: el}
+	}
+	// The verdict.  504 must arrive within the configured timeout + slack; the slack follows the
+	// scheduling noise measured while the wave ran: 500 ms when the process never stalled for
+	// 50 ms (10x), 1.5 s when it never stalled for 150 ms, no verdict otherwise.
+	type verdict struct{ clause, msg string }
+	judge := func(c c19Beh, m seen, slack time.Duration) verdict {
+		T := time.Duration(c.C.Rht) * time.Millisecond
+		bound := time.Duration(c.Out.Within)*time.Millisecond + slack
+		what := fmt.Sprintf("%s request", c19ReqName(c))
 		switch {
-		case c.Out.Status == 504 && resp.StatusCode != 504:
-			return verdict{"not-cut-off", fmt.Sprintf("status %d after %v; the upstream needs %d ms, the response-header timeout is %v: want 504 within %v", resp.StatusCode, el, c.Delay, T, bound)}
-		case c.Out.Status == 504 && el > bound:
-			return verdict{"late", fmt.Sprintf("504 after %v, want within %v (timeout %v + slack)", el, bound, T)}
-		case c.Out.Status == 200 && resp.StatusCode != 200:
-			return verdict{"timely-upstream-not-served", fmt.Sprintf("status %d after %v; the upstream answers after %d ms, the response-header timeout is %v: want 200", resp.StatusCode, el, c.Delay, T)}
+		case m.err != nil && c.Out.Status == 504:
+			return verdict{"not-cut-off", fmt.Sprintf("%s: no response within %v (response-header timeout %v, upstream delay %d ms): %v", what, m.el, T, c.Delay, m.err)}
+		case m.err != nil:
+			return verdict{"client-error", fmt.Sprintf("%s failed after %v: %v", what, m.el, m.err)}
+		case c.Out.Status == 504 && m.status != 504:
+			return verdict{"not-cut-off", fmt.Sprintf("%s: status %d after %v; the upstream needs %d ms, the response-header timeout is %v: want 504 within %v", what, m.status, m.el, c.Delay, T, bound)}
+		case c.Out.Status == 504 && m.el > bound:
+			return verdict{"late", fmt.Sprintf("%s: 504 after %v, want within %v (timeout %v + %v slack; the process did not stall while this was measured): the client was held beyond the configured timeout", what, m.el, bound, T, slack)}
+		case c.Out.Status == 200 && m.status != 200:
+			return verdict{"timely-upstream-not-served", fmt.Sprintf("%s: status %d after %v; the upstream answers after %d ms, the response-header timeout is %v: want 200", what, m.status, m.el, c.Delay, T)}
 		}
 		return verdict{}
 	}
-	var ran, retried int
+	var ran, retried, tight, wide, voided int
 	var samples []string
 	strikes := map[int]int{}
 	last := map[int]verdict{}
@@ -209,49 +258,72 @@ func c19BehaviourPart(t *testing.T) map[string]any {
 	for i := range pending {
 		pending[i] = i
 	}
-	valid, unstable := 0, false
-	for round := 0; round < 6 && len(pending) > 0 && valid < 2; round++ {
-		sw := verifx.WatchStalls()
-		res := make([]verdict, len(bs))
-		var wg sync.WaitGroup
-		for _, i := range pending {
-			wg.Add(1)
-			go func(i int) {
-				defer wg.Done()
-				res[i] = attempt(bs[i])
-			}(i)
-		}
-		wg.Wait()
-		ran += len(pending)
-		if round > 0 {
-			retried += len(pending)
-		}
-		if gap := sw.Stop(); gap > 150*time.Millisecond {
-			verifx.Emit(map[string]any{"kind": "note", "msg": fmt.Sprintf("round %d void: the process stalled for %v", round, gap)})
-			continue
-		}
-		valid++
-		var next []int
-		for _, i := range pending {
-			if res[i].clause != "" {
-				strikes[i]++
-				last[i] = res[i]
-				next = append(next, i)
+	unstable := false
+	for pass := 0; pass < 6 && len(pending) > 0; pass++ {
+		var again []int
+		for len(pending) > 0 {
+			n := 64
+			if n > len(pending) {
+				n = len(pending)
+			}
+			wave := pending[:n]
+			pending = pending[n:]
+			sw := verifx.WatchStalls()
+			res := make([]seen, len(bs))
+			var wg sync.WaitGroup
+			for _, i := range wave {
+				wg.Add(1)
+				go func(i int) {
+					defer wg.Done()
+					res[i] = measure(bs[i])
+				}(i)
+			}
+			wg.Wait()
+			ran += len(wave)
+			if pass > 0 {
+				retried += len(wave)
+			}
+			gap := sw.Stop()
+			var slack time.Duration
+			switch {
+			case gap < 50*time.Millisecond:
+				slack = 500 * time.Millisecond
+				tight++
+			case gap < 150*time.Millisecond:
+				slack = c19Slack
+				wide++
+			default:
+				voided++
+				verifx.Emit(map[string]any{"kind": "note", "msg": fmt.Sprintf("wave void: the process stalled for %v", gap)})
+				again = append(again, wave...)
+				continue
+			}
+			for _, i := range wave {
+				if v := judge(bs[i].c, res[i], slack); v.clause != "" {
+					strikes[i]++
+					last[i] = v
+					if strikes[i] < 2 {
+						again = append(again, i)
+					}
+				}
 			}
 		}
-		pending = next
+		pending = again
 	}
-	if len(pending) > 0 && valid < 2 {
+	if len(pending) > 0 { // cases that never got their (second) verdict in a wave without a stall
 		unstable = true
 	}
 	for i, b := range bs {
 		b.srv.Close()
 		c := b.c
 		if strikes[i] >= 2 {
-			verifx.Fail(c, map[string]any{"sub": "behaviour", "kind": c.Kind, "clause": last[i].clause, "class": c.Class},
-				"%s transport, SetConfig(%s) after %s, upstream delay %d ms: %s", c.Kind, c.C.Name, c.First.Name, c.Delay, last[i].msg)
+			f := map[string]any{"sub": "behaviour", "kind": c.Kind, "clause": last[i].clause, "class": c.Class}
+			if c.Wrap != "" {
+				f["wrap"], f["req"] = c.Wrap, c.Req
+			}
+			verifx.Fail(c, f, "%s transport, SetConfig(%s) after %s, handlers %q, upstream delay %d ms: %s", c.Kind, c.C.Name, c.First.Name, c.Wrap, c.Delay, last[i].msg)
 		}
-		if i%17 == 3 && len(samples) < 3 {
+		if i%37 == 3 && len(samples) < 3 {
 			bj, _ := json.Marshal(c)
 			samples = append(samples, string(bj))
 		}
@@ -262,7 +334,18 @@ func c19BehaviourPart(t *testing.T) map[string]any {
 			nontrivial++
 		}
 	}
-	return map[string]any{"cases": len(cases), "ran": ran, "retried": retried, "unstable": unstable, "distinct_nontrivial": nontrivial, "samples": samples}
+	return map[string]any{"cases": len(cases), "ran": ran, "retried": retried, "unstable": unstable, "distinct_nontrivial": nontrivial, "samples": samples,
+		"waves_tight": tight, "waves_wide": wide, "waves_void": voided}
+}
+
+func c19ReqName(c c19Beh) string {
+	switch c.Req {
+	case "":
+		return "GET"
+	case "EXPECT":
+		return "POST (Expect: 100-continue)"
+	}
+	return c.Req
 }
 
 // ---------------------------------------------------------------- concurrency and idle reuse
@@ -382,7 +465,7 @@ func c19ConcurrentPart(t *testing.T) map[string]any {
 		switch c.T {
 		case "conc":
 			up := c19NewUpstream(secure)
-			p, err := c19NewProxy(cfg, c19Route("svc", "/", c.Kind, up))
+			p, err := c19NewProxy(cfg, c19Route("svc", "/", c.Kind, up), "")
 			if err != nil {
 				t.Fatal(err)
 			}
@@ -413,7 +496,7 @@ func c19ConcurrentPart(t *testing.T) map[string]any {
 			}})
 		case "reuse":
 			a, b := c19NewUpstream(secure), c19NewUpstream(secure)
-			p, err := c19NewProxy(cfg, c19Route("a", "/a", c.Kind, a)+"\n"+c19Route("b", "/b", c.Kind, b))
+			p, err := c19NewProxy(cfg, c19Route("a", "/a", c.Kind, a)+"\n"+c19Route("b", "/b", c.Kind, b), "")
 			if err != nil {
 				t.Fatal(err)
 			}
